@@ -78,7 +78,7 @@ PROPERTIES LeaverIsolated UnsubExact
 def run_pack(ctx, name, clients, filters, nopts, maxlive, maxtotal, depth, sys_levels=("$s",), workers=8,
              timeout=900, target="mem"):
     """model-check the pack and replay every emitted transition; returns summary dict"""
-    bindir = ctx.go_build()
+    bindir = ctx.go_build(["./cmd/substore"])
     topics = topic_universe(filters, depth, sys_levels=[s for s in sys_levels])
     meta = {"clients": clients, "filters": filters, "topics": topics}
     mpath = os.path.join(ctx.tmp("meta"), name + ".json")
